@@ -1,10 +1,206 @@
-import Model.Errs
-/-! # C11 — error aggregation loses nothing and wrapping preserves identity -/
+import Lemmas.Errs
+/-! # C11 — error aggregation loses nothing and wrapping preserves identity
+
+Property theorems only.  The executable model is `Model/Errs.lean` (a heap of `*errs.Error` nodes; `Errs.append`,
+`count`, `message`, `wrappedErrors`, `errorOrNil`, `wrap`, `wrapTyped`, `unwrap` — the definitions the driver
+`drv_c11` runs against the Go code on every check); the heap lemmas and the assembly over the argument loop are in
+`Lemmas/Errs.lean`.
+
+Vocabulary: `WF h` — links of the heap point forward, stay inside the heap and never reach an empty node (the driver
+evaluates the Boolean form `wfb` on every heap it builds without `CloneWithPrefixMessage`; `wf_of_wfb`);
+`argItems h v` — the non-nil, non-empty errors contained in the value `v`, aggregates flattened;
+`accOf acc args` / `restOf acc args` — the effective accumulator and the appended arguments (design Appendix B: a nil
+`err` makes the first non-nil argument the accumulator); `NoAlias h acc args` — no appended argument's chain ends in
+the accumulator's last cell (aliased calls such as `Append(a, b, a)` re-read the accumulator after it has grown; they are
+covered by the correspondence run, not by these theorems). -/
 namespace C11
 open Errs
 
-/-- `Wrap` returns nil for the nil interface and for typed nils -/
+/-- **Append loses nothing**: the result contains, in order, the non-nil non-empty errors of the accumulator followed
+    by those of every argument, aggregates flattened (property clause 1, `Count`/`WrappedErrors` via `count_eq`,
+    `wrapped_errors_eq`) -/
+theorem append_items (h : Heap) (acc : Val) (args : List Val) (hwf : WF h)
+    (hids : ∀ id, Val.ref id ∈ acc :: args → id < h.size) (hna : NoAlias h acc args) :
+    resItems (append h acc args) = argItems h acc ++ args.flatMap (argItems h) :=
+  (append_spec args acc h hwf hids hna).items
+
+/-- the result is nil exactly when there is no such error (clause "is nil exactly when there are none") -/
+theorem append_nil_iff (h : Heap) (acc : Val) (args : List Val) (hwf : WF h)
+    (hids : ∀ id, Val.ref id ∈ acc :: args → id < h.size) (hna : NoAlias h acc args) :
+    (append h acc args).2.1 = none ↔ argItems h acc ++ args.flatMap (argItems h) = [] :=
+  (append_spec args acc h hwf hids hna).nilIff
+
+/-- every cell whose `next` field `Append` writes is the last cell of the accumulator's chain or was allocated by this
+    call (the write log of the transcription) … -/
+theorem append_written (h : Heap) (acc : Val) (args : List Val) (hwf : WF h)
+    (hids : ∀ id, Val.ref id ∈ acc :: args → id < h.size) (hna : NoAlias h acc args) :
+    ∀ i ∈ (append h acc args).2.2,
+      (∃ id, accOf acc args = .ref id ∧ i = tailOf h (fuelOf h) id ∧ i ∈ chain h (fuelOf h) id) ∨ h.size ≤ i := by
+  intro i hi
+  rcases (append_spec args acc h hwf hids hna).written i hi with ⟨id, hacc, heq⟩ | hge
+  · refine Or.inl ⟨id, hacc, heq, ?_⟩
+    have hlt : id < h.size := hids id (by rw [← hacc]; exact accOf_mem args acc)
+    rw [heq]
+    exact (hwf.chain_spec hlt).1.tail_mem
+  · exact Or.inr hge
+
+/-- … and no other pre-existing cell changes at all (frame) -/
+theorem append_frame (h : Heap) (acc : Val) (args : List Val) (hwf : WF h)
+    (hids : ∀ id, Val.ref id ∈ acc :: args → id < h.size) (hna : NoAlias h acc args) (i : Nat) (hi : i < h.size)
+    (hne : ∀ id, accOf acc args = .ref id → i ≠ tailOf h (fuelOf h) id) :
+    (append h acc args).1[i]? = h[i]? :=
+  (append_spec args acc h hwf hids hna).frame i hi hne
+
+/-- **the appended arguments are left unchanged**: after the call every appended `*Error` argument has the same chain,
+    the same cells and the same content as before (clause "leaves the contents of the appended arguments unchanged") -/
+theorem append_args_unchanged (h : Heap) (acc : Val) (args : List Val) (hwf : WF h)
+    (hids : ∀ id, Val.ref id ∈ acc :: args → id < h.size) (hna : NoAlias h acc args) :
+    ∀ id', Val.ref id' ∈ restOf acc args →
+      chain (append h acc args).1 (fuelOf (append h acc args).1) id' = chain h (fuelOf h) id' ∧
+      items (append h acc args).1 id' = items h id' ∧
+      ∀ i ∈ chain h (fuelOf h) id', (append h acc args).1[i]? = h[i]? := by
+  intro id' hid'
+  exact append_frame_any h acc args hwf hids hna id'
+    (hids id' (List.mem_cons_of_mem _ (restOf_subset args acc _ hid'))) (fun id hacc => hna id hacc id' hid')
+
+/-- the heap invariant is preserved, so the theorems apply again to the next call -/
+theorem append_wf (h : Heap) (acc : Val) (args : List Val) (hwf : WF h)
+    (hids : ∀ id, Val.ref id ∈ acc :: args → id < h.size) (hna : NoAlias h acc args) :
+    WF (append h acc args).1 ∧ h.size ≤ (append h acc args).1.size ∧
+      ∀ r, (append h acc args).2.1 = some r → r < (append h acc args).1.size :=
+  ⟨(append_spec args acc h hwf hids hna).wf, (append_spec args acc h hwf hids hna).grow,
+    (append_spec args acc h hwf hids hna).rootLt⟩
+
+/-- **any sequence of Appends on an accumulator** (a non-nil-interface accumulator `acc`, argument lists whose
+    `*Error`s exist before the first call and do not end in the accumulator's last cell): the final value contains the
+    accumulator's errors followed by those of all argument lists, in order -/
+theorem append_chain (argss : List (List Val)) (h : Heap) (acc : Val) (hacc : acc ≠ .nilIface) (hwf : WF h)
+    (hid : ∀ id, acc = .ref id → id < h.size)
+    (hargs : ∀ args ∈ argss, ∀ id', Val.ref id' ∈ args → id' < h.size ∧
+      ∀ id, acc = .ref id → tailOf h (fuelOf h) id ∉ chain h (fuelOf h) id') :
+    argItems (appendSeq h acc argss).1 (appendSeq h acc argss).2 =
+      argItems h acc ++ argss.flatMap (fun args => args.flatMap (argItems h)) ∧
+    WF (appendSeq h acc argss).1 :=
+  appendSeq_spec argss h acc hacc hwf hid hargs
+
+/-- `Count` is the number of non-empty errors of the chain — on every heap, no hypothesis -/
+theorem count_eq (h : Heap) (id : Nat) : count h id = (items h id).length := count_eq_items h id
+
+/-- `Count` of the result of `Append` is the number of non-nil non-empty errors in the arguments -/
+theorem append_count (h : Heap) (acc : Val) (args : List Val) (hwf : WF h)
+    (hids : ∀ id, Val.ref id ∈ acc :: args → id < h.size) (hna : NoAlias h acc args) (r : Nat)
+    (hr : (append h acc args).2.1 = some r) :
+    count (append h acc args).1 r = (argItems h acc ++ args.flatMap (argItems h)).length := by
+  rw [count_eq_items, ← append_items h acc args hwf hids hna]
+  simp only [resItems, hr]
+
+/-- `WrappedErrors` of the result of `Append` is, element by element (message, cause, stack presence, wrapped flag;
+    `next = nil`), the list of those errors -/
+theorem wrapped_errors_eq (h : Heap) (acc : Val) (args : List Val) (hwf : WF h)
+    (hids : ∀ id, Val.ref id ∈ acc :: args → id < h.size) (hna : NoAlias h acc args) (r : Nat)
+    (hr : (append h acc args).2.1 = some r) :
+    (wrappedErrors (append h acc args).1 r).map itemOf = argItems h acc ++ args.flatMap (argItems h) ∧
+    ∀ n ∈ wrappedErrors (append h acc args).1 r, n.next = none := by
+  have D := append_spec args acc h hwf hids hna
+  refine ⟨?_, ?_⟩
+  · rw [wrapped_eq_items _ D.wf r (D.rootLt r hr) (root_nonempty D r hr), ← D.items]
+    simp only [resItems, hr]
+  · intro n hn
+    unfold wrappedErrors at hn
+    simp only [List.mem_filterMap] at hn
+    obtain ⟨i, _, hx⟩ := hn
+    cases hh : (append h acc args).1[i]? with
+    | none => rw [hh] at hx; cases hx
+    | some m => rw [hh] at hx; simp at hx; rw [← hx]
+
+/-- `ErrorOrNil` is nil exactly for an empty error and otherwise the error itself -/
+theorem error_or_nil (h : Heap) (id : Nat) :
+    errorOrNil h (.ref id) = (if isEmpty h id then .nilIface else .ref id) ∧ errorOrNil h .typedNil = .nilIface := by
+  simp [errorOrNil]
+
+/-- `Wrap` returns nil for the nil interface and for typed nils (of `*Error` and of foreign pointer types) -/
 theorem wrap_nil (h : Heap) (v : Val) (hv : isNil v = true) : wrap h v = (h, .nilIface) := by
   simp [wrap, hv]
+
+/-- `WrapTyped` returns a nil `*Error` for them -/
+theorem wrapTyped_nil (h : Heap) (v : Val) (hv : isNil v = true) : wrapTyped h v = (h, .typedNil) := by
+  simp [wrapTyped, hv]
+
+/-- an existing `*Error` is returned unchanged, and nothing is allocated -/
+theorem wrap_idempotent (h : Heap) (id : Nat) : wrap h (.ref id) = (h, .ref id) ∧ wrapTyped h (.ref id) = (h, .ref id) := by
+  simp [wrap, wrapTyped, isNil, asError]
+
+/-- wrapping the result of `Wrap` again changes nothing, whatever the input -/
+theorem wrap_wrap (h : Heap) (v : Val) : wrap (wrap h v).1 (wrap h v).2 = wrap h v := by
+  by_cases h1 : isNil v = true
+  · have hw : wrap h v = (h, .nilIface) := by simp [wrap, h1]
+    rw [hw]; simp [wrap, isNil]
+  · have h1' : isNil v = false := by simpa using h1
+    by_cases h2 : asError v = true
+    · have hw : wrap h v = (h, v) := by simp [wrap, h1', h2]
+      rw [hw]; exact hw
+    · have h2' : asError v = false := by simpa using h2
+      have hw : wrap h v = (h.push (wrapperNode v), .ref h.size) := by simp [wrap, h1', h2']
+      rw [hw]; simp [wrap, isNil, asError]
+
+/-- otherwise `Wrap` produces a new error carrying the cause's message, whose `Unwrap` is the cause itself — so the
+    `errors.Is`/`errors.As` walk from the result visits the cause — and no existing cell changes -/
+theorem wrap_reaches_cause (h : Heap) (v : Val) (hv : isNil v = false) (ha : asError v = false) :
+    wrap h v = (h.push (wrapperNode v), .ref h.size) ∧
+    unwrap (wrap h v).1 (wrap h v).2 = v ∧
+    message (wrap h v).1 h.size = errorText v ∧
+    v ∈ unwrapChain (wrap h v).1 2 (wrap h v).2 ∧
+    (∀ i, i < h.size → (wrap h v).1[i]? = h[i]?) := by
+  have hw : wrap h v = (h.push (wrapperNode v), .ref h.size) := by simp [wrap, hv, ha]
+  rw [hw]
+  refine ⟨rfl, ?_, ?_, ?_, ?_⟩
+  · simp [unwrap, wrapperNode]
+  · simp [message, nextOf, msgOf, wrapperNode]
+  · have hr : isNil (Val.ref h.size) = false := rfl
+    simp [unwrapChain, unwrap, hv, hr, wrapperNode]
+  · intro i hi
+    simp [Array.getElem?_push, Nat.ne_of_lt hi]
+
+/-- the same for `WrapTyped` and every non-nil value that is not itself a `*Error` (a foreign error that merely wraps a
+    `*Error` is wrapped again, on purpose) -/
+theorem wrapTyped_reaches_cause (h : Heap) (v : Val) (hv : isNil v = false) (hr : ∀ id, v ≠ .ref id) :
+    wrapTyped h v = (h.push (wrapperNode v), .ref h.size) ∧
+    unwrap (wrapTyped h v).1 (wrapTyped h v).2 = v ∧
+    message (wrapTyped h v).1 h.size = errorText v := by
+  have hw : wrapTyped h v = (h.push (wrapperNode v), .ref h.size) := by
+    cases v with
+    | ref id => exact absurd rfl (hr id)
+    | nilIface => simp [isNil] at hv
+    | typedNil => simp [isNil] at hv
+    | foreignNil => simp [isNil] at hv
+    | plain u m => simp [wrapTyped, isNil]
+    | fwrap u m inner => simp [wrapTyped, isNil]
+  rw [hw]
+  refine ⟨rfl, ?_, ?_⟩
+  · simp [unwrap, wrapperNode]
+  · simp [message, nextOf, msgOf, wrapperNode]
+
+/-- the constructors keep the heap invariant (`New`, `NewWithCause`, `&Error{}`, `Wrap`, `WrapTyped`) -/
+theorem constructors_wf (h : Heap) (hwf : WF h) (m : String) (c v : Val) :
+    WF (new h m).1 ∧ WF (newWithCause h m c).1 ∧ WF (newEmpty h).1 ∧ WF (wrap h v).1 ∧ WF (wrapTyped h v).1 :=
+  ⟨push_wf h _ hwf rfl, push_wf h _ hwf rfl, push_wf h _ hwf rfl, wrap_wf h v hwf, wrapTyped_wf h v hwf⟩
+
+/-! non-vacuity: a concrete well-formed heap (`x`, the aggregate `{a1, a2}`, `y`), the call `Append(x, {a1,a2}, nil,
+    (*Error)(nil), plain "p", y)` satisfies every hypothesis and yields the five errors in order -/
+def h0 : Heap := #[{ msg := "x", hasStack := true }, { msg := "a1", hasStack := true, next := some 2 },
+  { msg := "a2", hasStack := true }, { msg := "y", hasStack := true }]
+def args0 : List Val := [.ref 1, .nilIface, .typedNil, .plain 0 "p", .ref 3]
+
+example : WF h0 := wf_of_wfb h0 (by decide)
+example : ∀ id, Val.ref id ∈ Val.ref 0 :: args0 → id < h0.size := by
+  intro id hid; simp [args0] at hid; rcases hid with rfl | rfl | rfl <;> decide
+example : NoAlias h0 (.ref 0) args0 := by
+  intro id hacc id' hid'
+  have : id = 0 := by simpa [accOf, args0] using hacc.symm
+  subst this
+  simp [restOf, args0] at hid'
+  rcases hid' with rfl | rfl <;> decide
+example : (resItems (append h0 (.ref 0) args0)).map (·.msg) = ["x", "a1", "a2", "p", "y"] := by decide
+example : count (append h0 (.ref 0) args0).1 0 = 5 := by decide
 
 end C11
